@@ -23,6 +23,12 @@ EXTRA = [
     "SELECT * FROM int1.t1 JOIN int2.t2 ON t1.id = t2.id JOIN int1.t3 ON t3.id = t2.id",
     "SELECT t1.a, t3.d FROM int1.t1 LEFT JOIN int2.t2 ON t1.id = t2.id LEFT JOIN int1.t3 ON t3.id = t1.id WHERE t1.a > 0",
     "SELECT t1.a, t2.c, t3.d FROM int1.t1 JOIN int2.t2 ON t1.id = t2.id LEFT JOIN int1.t3 ON t3.id = t2.id WHERE t3.d IS NULL",
+    # chains whose join keys are equally named columns of DIFFERENT earlier tables, and keys under different names
+    "SELECT t1.a, t2.c, t3.d FROM int1.t1 JOIN int2.t2 ON t2.c = t1.id JOIN int1.t3 ON t3.d = t2.id",
+    "SELECT t1.a, t2.c, t3.d FROM int1.t1 JOIN int2.t2 ON t2.c = t1.id LEFT JOIN int1.t3 ON t3.d = t2.id",
+    "SELECT t1.a, t2.c, t3.d FROM int1.t1 LEFT JOIN int2.t2 ON t2.c = t1.id LEFT JOIN int1.t3 ON t3.d = t2.id WHERE t1.a > 0",
+    "SELECT t1.a, t3.d FROM int1.t1 JOIN int2.t2 ON t2.id = t1.a JOIN int1.t3 ON t3.id = t2.c",
+    "SELECT t1.a, t2.c, t3.d FROM int1.t1 JOIN int2.t2 ON t1.id = t2.id JOIN int1.t3 ON t3.d = t1.a AND t3.id = t2.c",
     "SELECT a FROM int1.t1 WHERE a IN (SELECT c FROM int2.t2)",
     "SELECT a FROM int1.t1 WHERE a NOT IN (SELECT c FROM int2.t2)",
     "SELECT a FROM int1.t1 WHERE a NOT IN (SELECT c FROM int2.t2 WHERE c IS NOT NULL) AND b > 0",
